@@ -583,3 +583,47 @@ def kinds_reaching(Y, fn, bb, enum="yrs::block::ItemContent", place_hint="conten
                     allowed |= allk - set(l.polarity[1])
         result &= allowed
     return result, used
+
+
+
+def item_key(fn, t, depth=14):
+    """rendering of the term of an item handle that is stable across copies: reference / deref wrappers stripped, local names
+    numbers and parameters wild — `φ(*.start | *.right)`, `*.left`, `*.right`; equal strings for the same access path, different
+    ones for a neighbour (`*.left` vs `*`, `.left` vs `.right`). Deliberately coarse: it tells paths apart, not base variables."""
+    argc = fn.argc()
+
+    def strip(t):
+        t = simp_deep(t)
+        while isinstance(t, tuple) and t and t[0] in ("ref", "deref"):
+            t = simp_deep(t[1] if len(t) == 2 else t[-1])
+        return t
+
+    def wild(t):
+        if isinstance(t, tuple):
+            if t and t[0] in ("local", "param"):
+                return ("local", 0, "*")   # a parameter copied into a local is rendered either way: bases are wild, paths are kept
+            return tuple(wild(x) for x in t)
+        return t
+    return show(wild(strip(t)), depth)
+
+
+def tested_item_keys(fn, v, bb, is_vis):
+    """item_key of every argument of the calls behind the necessary liveness literals of block bb."""
+    out = set()
+    for l in v.guards(bb):
+        if is_vis(l):
+            t = simp(l.term)
+            if t[0] == "call":
+                for a in t[2]:
+                    out.add(item_key(fn, a))
+    return out
+
+
+def content_owner_keys(fn, terms):
+    """item_key of every item whose `.content` is read inside the given terms."""
+    out = set()
+    for t in terms:
+        for x in walk(t):
+            if x[0] == "field" and x[1].endswith("Item.content"):
+                out.add(item_key(fn, x[2]))
+    return out
